@@ -4,6 +4,7 @@
    C03_run_is_outcome every scripted run of the model (the one compared with the code) is one. *)
 From Coq Require Import ZArith QArith List Bool.
 From NutsV Require Import model.Tree proofs.Tree_facts.
+From NutsV Require model.Pool proofs.Pool_facts.
 Import ListNotations.
 Local Open Scope Z_scope.
 
@@ -126,6 +127,40 @@ Theorem C03_dim0 :
     d_maxdepth r = false /\ d_lo r = a /\ d_hi r = a.
 Proof. exact T7_dim0. Qed.
 Print Assumptions C03_dim0.
+
+(* state Pool.pool (model/Pool.v): for ALL sequences of new / clone / drop / write operations, a cell on
+   the free list has no live handle, and a successful write through one handle changes no value
+   observable through any other live handle: the next trajectory can never overwrite a draw that
+   is still referenced *)
+Theorem C03_pool_free_cells_unreferenced :
+  forall (ops : list Pool.op) (c : nat),
+    In c (Pool.p_free (fst (Pool.run Pool.empty ops))) -> forall h, Pool.cell_of (fst (Pool.run Pool.empty ops)) h <> Some c.
+Proof. intros ops c H. exact (Pool_facts.free_cell_has_no_handle _ c (Pool_facts.inv_run ops) H). Qed.
+Print Assumptions C03_pool_free_cells_unreferenced.
+
+Theorem C03_pool_write_no_alias :
+  forall (p : Pool.pool) (h v : nat), Pool_facts.inv p -> snd (Pool.step p (Pool.OWrite h v)) = Pool.ROk ->
+    forall h', h' <> h -> Pool.read (fst (Pool.step p (Pool.OWrite h v))) h' = Pool.read p h'.
+Proof. exact Pool_facts.write_no_alias. Qed.
+Print Assumptions C03_pool_write_no_alias.
+
+Theorem C03_pool_write_iff_unique_owner :
+  forall (p : Pool.pool) (h v c : nat), Pool_facts.inv p -> Pool.cell_of p h = Some c ->
+    (snd (Pool.step p (Pool.OWrite h v)) = Pool.ROk <-> forall h', h' <> h -> Pool.cell_of p h' <> Some c).
+Proof. exact Pool_facts.write_succeeds_iff_unique. Qed.
+Print Assumptions C03_pool_write_iff_unique_owner.
+
+Theorem C03_pool_new_state_is_fresh :
+  forall (p p' : Pool.pool) (h : nat), Pool_facts.inv p -> Pool.step p Pool.ONew = (p', Pool.RHandle h) ->
+    exists c, Pool.cell_of p' h = Some c /\ (forall h', h' <> h -> Pool.cell_of p' h' <> Some c).
+Proof. exact Pool_facts.new_is_fresh. Qed.
+Print Assumptions C03_pool_new_state_is_fresh.
+
+Theorem C03_pool_recycles_iff_last_handle :
+  forall (p : Pool.pool) (h c : nat), Pool_facts.inv p -> Pool.cell_of p h = Some c ->
+    (In c (Pool.p_free (fst (Pool.step p (Pool.ODrop h)))) <-> forall h', h' <> h -> Pool.cell_of p h' <> Some c).
+Proof. exact Pool_facts.drop_recycles_iff_last. Qed.
+Print Assumptions C03_pool_recycles_iff_last_handle.
 
 (* non-vacuity: a concrete scripted run that doubles twice and stops at maxdepth *)
 Example C03_nonvacuous :
